@@ -145,6 +145,24 @@ func verifHarness_C15_getRoute() {
 		verifAssert(r.GetRoute("other") == first, "a renamed route is found under its new name")
 		verifAssert(r.GetRoute("n") == second, "renaming an older route leaves the most recent registration under the name")
 	}
+	// A - B - A: the first route takes the name back; the most recent registration under the name wins again
+	if verifChoice("takeBack", 2) == 1 {
+		back := first
+		if verifChoice("takeBackWho", 2) == 1 {
+			back = second
+		}
+		back.NamedTo("n", r)
+		verifAssert(r.GetRoute("n") == back, "a route that is (re-)named to a name owns it, also when it carried that name before")
+		k := verifCatch(func() {
+			u := r.BuildURL("n", "{v}", "7")
+			want := "/one"
+			if back == second {
+				want = "/two/7"
+			}
+			verifAssert(u.Path == want, "BuildURL follows the name's current owner")
+		})
+		verifAssert(k == "", "building the URL of the name's owner does not panic")
+	}
 	verifAssert(r.GetRoute("nope") == nil, "unknown names give nil")
 	verifCover("C15 getRoute")
 }
